@@ -9,7 +9,7 @@ from __future__ import annotations
 import itertools
 from typing import Any, List
 
-from .common import call, same, is_symbolic, PathAbort, mk_array
+from .common import call, same, is_symbolic, PathAbort, mk_array, replay_tiers
 from .c02 import opaque_class, shapes, _shape_name
 
 PROP = "C01"
@@ -353,7 +353,7 @@ def replay(obligation: str, witness):
     import sys
     from sx.concrete import ConcreteEngine
     from sx.engine import PathAbort as PA
-    for tier in ("thorough", "quick"):
+    for tier in replay_tiers():
         for ob in obligations(tier):
             if ob.name == obligation:
                 from sx.concrete import run_concrete
